@@ -34,6 +34,6 @@ def initTimeGlobalWrites : List (String × String) := [
   ("github.com/koykov/inspector.init", "inspector.reVnd"),
   ("github.com/koykov/inspector.tmpIdx", "inspector.tmpCntr"),
   ("github.com/koykov/inspector/testobj_ins.init", "testobj_ins.init$guard")]
-def runtimeEntryPoints : Nat := 61818
-def functionsReachable : Nat := 62113
+def runtimeEntryPoints : Nat := 16802
+def functionsReachable : Nat := 16868
 end Inspector
